@@ -79,11 +79,20 @@ def build_cases(states, events, keep, twins=False, chunk=12, readback=True):
     return cases
 
 
-def _collect(ctx, results, what):
-    """flatten per-case results into one event list; aborts/timeouts of the code under test become pseudo events"""
+def _collect(ctx, results, what, out_path):
+    """flatten per-case results into one event list; aborts/timeouts of the code under test become pseudo events.
+    The harness writes the events of case i as one line of <out_path>.events (see mvh_fs.rs: emit)."""
+    side = {}
+    if os.path.exists(out_path + ".events"):
+        for line in vlib.read_ndjson(out_path + ".events"):
+            side[line["i"]] = line["events"]
     events = []
     unbuildable = []
     for r in results:
+        if "n" in r:
+            if r["i"] not in side or len(side[r["i"]]) != r["n"]:
+                raise vlib.ToolError("events of case %d missing in the side file" % r["i"])
+            r = {"i": r["i"], "events": side[r["i"]]}
         if "events" not in r:
             events.append({"op": "abort", "outcome": r.get("outcome"), "signal": r.get("signal"), "case": r["i"], "what": what,
                            "stderr": r.get("stderr", "")[-300:]})
@@ -99,20 +108,26 @@ def _collect(ctx, results, what):
 def replay(ctx, binary, cases, tag):
     cpath, opath = ctx.path("cases_%s.ndjson" % tag), ctx.path("replay_%s.ndjson" % tag)
     vlib.write_ndjson(cpath, cases)
+    if os.path.exists(opath + ".events"):
+        os.remove(opath + ".events")
     res = ctx.isolated(binary, ["replay", cpath, opath], len(cases), opath, per_case_timeout=60.0, env=harness_env(ctx))
     if len(res) != len(cases):
         raise vlib.ToolError("replay produced %d results for %d cases" % (len(res), len(cases)))
-    return _collect(ctx, res, "replay")
+    ctx.log("replayed %d cases on real directories" % len(cases))
+    return _collect(ctx, res, "replay", opath)
 
 
 def record(ctx, binary, runs, length, profile, tag):
     opath = ctx.path("record_%s.ndjson" % tag)
     env = harness_env(ctx)
     env["MVH_PROFILE"] = profile
+    if os.path.exists(opath + ".events"):
+        os.remove(opath + ".events")
     res = ctx.isolated(binary, ["record", opath, str(runs), str(length)], runs, opath, per_case_timeout=120.0, env=env)
     if len(res) != runs:
         raise vlib.ToolError("record produced %d results for %d runs" % (len(res), runs))
-    ev, unb = _collect(ctx, res, "record")
+    ctx.log("recorded %d random histories" % runs)
+    ev, unb = _collect(ctx, res, "record", opath)
     return ev
 
 
@@ -258,7 +273,7 @@ def count_nontrivial(events):
     return len(seen)
 
 
-def run_fs(ctx, laws, keep, owns, profile=None, twins=False, post=None, lz=False):
+def run_fs(ctx, laws, keep, owns, profile=None, twins=False, post=None, lz=False, unsupported_games=False):
     """model check -> generate -> replay -> validate -> (record -> validate).  Returns (replayed events, recorded events)."""
     binary = ctx.build("release", "mvh_fs")
     # 1. the laws on the bounded model
@@ -275,6 +290,11 @@ def run_fs(ctx, laws, keep, owns, profile=None, twins=False, post=None, lz=False
         alphabet, states = generate(ctx, depth, tier)
         n_states += len(states)
         cases = build_cases(states, alphabet, keep, twins=twins, readback=not twins)
+        if unsupported_games and gi == 0:
+            # LayeredFilesystem::new on the games the statement does not list: an "unsupported" error (op "new")
+            for g in ("FE11", "FE12"):
+                for lang in sorted({s["lang"] for s in states}):
+                    cases.append({"game": g, "lang": lang, "layers": [[]], "events": [], "fresh": False, "twins": False})
         events, unb = replay(ctx, binary, cases, "gen%d" % gi)
         unb_all += unb
         bad = validate(ctx, events, "gen%d" % gi)
